@@ -39,6 +39,9 @@ DEVS: list[tuple[str, dict[str, Any], list[str]]] = [
     ("Light", {}, ["group_address_switch", "group_address_brightness", "group_address_color", "group_address_rgbw",
                    "group_address_tunable_white", "group_address_color_temperature", "group_address_hue"]),
     ("Cover", {}, ["group_address_long", "group_address_position", "group_address_angle", "group_address_position_state"]),
+    ("Cover", {"invert_position": True, "invert_angle": True},
+     ["group_address_position", "group_address_angle", "group_address_position_state", "group_address_angle_state"]),
+    ("Light", {}, ["group_address_switch", "group_address_brightness", "group_address_brightness_state"]),
     ("Sensor", {"value_type": "temperature"}, ["group_address_state"]),
     ("Sensor", {"value_type": "percent"}, ["group_address_state"]),
     ("Sensor", {"value_type": "pulse_2byte"}, ["group_address_state"]),
@@ -65,6 +68,8 @@ DPTS = ["switch", "temperature", "percent", "percentV8", "pulse_2byte", "string"
         "9.001", 9, {"main": 14, "sub": 56}, "color_rgb", "color_rgbw", "date", "time", "scene_number", "hvac_mode",
         "unknown_dpt_name", "999.999", None, {"main": 99}, "latin_1", "color_temperature", "angle", "wind_speed_ms",
         "humidity", "pressure_2byte", "active_energy"]
+HOT = ["percent", "5.001", "percentU8", "5.004", "angle", "5.003", "switch", "1.001", "temperature", "9.001", "percentV8", "6.001",
+       "pulse_2byte", "7.001", "string", "16.000", "latin_1", "16.001", "scene_number", "17.001", "color_rgb", "232.600"]
 PAYLOADS = [("bin", 0), ("bin", 1), ("bin", 5), ("arr", 1), ("arr", 2), ("arr", 3), ("arr", 4), ("arr", 6), ("arr", 8), ("arr", 14)]
 
 
@@ -80,7 +85,9 @@ def gen(seed: int, tier: str) -> dict[str, Any]:
         devs.append({"d": di, "params": params})
     table = {}
     for a in rng.sample(POOL, rng.randint(1, len(POOL))):
-        table[str(a)] = rng.choice(DPTS)
+        # half of the entries come from the types the devices themselves use (a table that agrees, or nearly agrees,
+        # with a device is where a shared decode could leak into the device state)
+        table[str(a)] = rng.choice(HOT) if rng.random() < 0.5 else rng.choice(DPTS)
     tgs = []
     for i in range(rng.choice([3, 8, 20])):
         kind, ln = rng.choice(PAYLOADS)
